@@ -246,10 +246,12 @@ def _menger_by_value(rc: RuleCtx, rule_range: Optional[str], rule_crit: Optional
     ev.len_map = {"points": sym("n")}
     n = sym("n")
     try:
-        val = ev.eval_function(fi, {"points": pts}).value()
+        out_ = ev.eval_function(fi, {"points": pts})
+        val = out_.value()
     except (Unsupported, AnalysisError):
         return False
-    if ev.summary_log:
+    from .common import stray_stores
+    if ev.summary_log or stray_stores(out_):
         return False
     main = None
     shorts = []
@@ -393,6 +395,9 @@ def _menger_vector(rc: RuleCtx, rule_range: Optional[str], rule_crit: Optional[s
                     E, pads = parts[1], (first(parts[0]), first(parts[2]))
     if E is None:
         return False
+    from .common import stray_stores
+    if len([e for e in out.events if e.kind == "store"]) > (1 if (isinstance(val, Rat) and am and am[0].args[0].is_zero()) else 0):
+        return False                  # further stores into arrays: the value read above is not the whole story
     j = sym("j")
     anf.declare_integer(j)
     P = lambda k_: (_at(pts.items[0], k_), _at(pts.items[1], k_))      # noqa: E731
